@@ -37,6 +37,7 @@ def handle (line : String) : String :=
       | "progress" => handleProgress fs
       | "hshake"  => handleHShake fs
       | "riter"   => handleRIter fs
+      | "tscan"   => handleTScan fs
       | "top5"    => handleTop5 fs
       | "ratios"  => handleRatios fs
       | "exc"     => handleExc fs
